@@ -183,6 +183,21 @@ func (tc *TypeConverter) TypeToExpr(t types.Type) ast.Expr {
 		}
 		// Same package - just use the type name
 		return ast.NewIdent(obj.Name())
+	case *types.Alias:
+		// A declared alias (type A = T) is spelled by its own name, like a named type
+		obj := typ.Obj()
+		if obj.Pkg() == nil {
+			// Predeclared alias (e.g., any)
+			return ast.NewIdent(obj.Name())
+		}
+		if tc.currentPkg != nil && obj.Pkg() != tc.currentPkg {
+			actualName := tc.AddImport(obj.Pkg().Path(), obj.Pkg().Name())
+			return &ast.SelectorExpr{
+				X:   tc.Qualifier(actualName),
+				Sel: ast.NewIdent(obj.Name()),
+			}
+		}
+		return ast.NewIdent(obj.Name())
 	case *types.Pointer:
 		return &ast.StarExpr{X: tc.TypeToExpr(typ.Elem())}
 	case *types.Slice:
